@@ -205,6 +205,7 @@ def run(repo, rep, tier):
     r5 = rep.rule('C03.R5', 'typed method parameters')
     r6 = rep.rule('C03.R6', 'unrepresentable characters fail locally')
     array_kind_decided_by_all_items(repo, rep)
+    normalised_arguments_are_the_ones_sent(repo, rep, 'C03.R11')
     # ---- R1b: enumerated attribute values at the construction sites ---------
     # (the writer passes the parameter through; what the object model can
     # hand over is the value set its property setter admits, narrowed by the
@@ -876,3 +877,59 @@ def strict_wire_encoding(repo, rep):
     if r8.sites < 3:
         raise AnalysisError('C03.R8: only %d encode() calls on the wire '
                             'path' % r8.sites)
+
+
+def normalised_arguments_are_the_ones_sent(repo, rep, rid):
+    """C03.R11 / C04.R18: the _iparam_*() helpers of WBEMConnection check
+    an operation argument AND return what is to be sent for it (a str class
+    name becomes a CIMClassName, host and namespace are stripped from a
+    path so that it is encoded as CLASSNAME / INSTANCENAME).  A call whose
+    result is thrown away still validates, but the raw argument goes to
+    _imethodcall(): a CIMClassName with namespace is then sent as
+    LOCALCLASSPATH below IPARAMVALUE, which the DTD does not allow there.
+    So no call of a value-returning _iparam_*() helper is a bare
+    expression statement."""
+    r = rep.rule(rid, 'the result of an _iparam_*() normaliser is used, '
+                 'never dropped')
+    conn = repo.cls('pywbem/_cim_operations.py', 'WBEMConnection')
+    helpers = {}
+    for n, f in list(conn.methods.items()) + \
+            list(repo.module('pywbem/_cim_operations.py').functions.items()):
+        if n.startswith('_iparam_'):
+            helpers[n] = any(isinstance(x, ast.Return) and
+                             x.value is not None and
+                             not (isinstance(x.value, ast.Constant) and
+                                  x.value.value is None)
+                             for x in walk_no_nested(f.node))
+    if len(helpers) < 6:
+        raise AnalysisError('%s: only %d _iparam_* helpers found'
+                            % (rid, len(helpers)))
+    ncalls = 0
+    for f in conn.methods.values():
+        for st in walk_no_nested(f.node):
+            calls = []
+            if isinstance(st, ast.Expr) and isinstance(st.value, ast.Call):
+                calls = [(st.value, True)]
+            elif isinstance(st, ast.Call):
+                calls = [(st, False)]
+            for c, bare in calls:
+                d = dotted(c.func) or ''
+                nm = d.split('.')[-1]
+                if not helpers.get(nm):
+                    continue
+                if bare:
+                    rep.finding(r, f.qualname, norm(c, 70), 'result-dropped',
+                                'pywbem/_cim_operations.py', c.lineno,
+                                'the value %s() returns for the argument is '
+                                'dropped: the argument is checked, but sent '
+                                'as the caller gave it (e.g. a class path '
+                                'with namespace as LOCALCLASSPATH where only '
+                                'CLASSNAME is allowed)' % nm)
+                    r.ob(False, '%s|%s' % (f.qualname, norm(c, 60)))
+                else:
+                    ncalls += 1
+    r.sites += ncalls
+    r.ob(ncalls >= 100, 'normaliser-calls', {'calls': ncalls})
+    if ncalls < 100:
+        raise AnalysisError('%s: only %d _iparam_*() calls found'
+                            % (rid, ncalls))
